@@ -505,7 +505,7 @@ package tcell
 //@   initonly dottedUnder dashedUnder underColor underRGB underFg cursorStyles cursorRGB cursorFg
 //@   initonly setTitle saveTitle restoreTitle setClipboard
 //@   confined keytimer keyexpire
-//@   channel finiOnce wg Mutex
+//@   channel finiOnce wg Mutex lifecycle
 //@   initfuncs Init initialize NewTerminfoScreenFromTtyTerminfo prepareKeys prepareKeyMod prepareKeyModReplace prepareKeyModXTerm prepareKey
 //@   initfuncs prepareXtermModifiers prepareBracketedPaste prepareUnderlines prepareExtendedOSC prepareCursorStyles buildAcsMap nColors
 //@   conffuncs mainLoop
